@@ -48,6 +48,24 @@ def conctest(pkg="concsrv", test="TestConc", name="conc"):
     return dict(name=name, cmd=cmd, timeout=dict(quick=1500, thorough=10000), cleanup="/dev/shm/verif-ov-%s-%d" % (name, os.getpid()))
 
 
+def resttest(test, name):
+    def cmd(t):
+        return ["go1.26.8", "test", "-count=1", "-vet=off", "-timeout", "170m", "-overlay", "overlay/exports.json", "-run", "^%s$" % test, "./restc"]
+    return dict(name=name, cmd=cmd, timeout=dict(quick=900, thorough=7200), replayable=(name == "restmodel"))
+
+
+def restconctest():
+    d = "/dev/shm/verif-ov-restconc-%d" % os.getpid()
+    def cmd(t):
+        return ["./conc/run.sh", d, "-tags", "verifconc", "-count=1", "-timeout", "170m", "-run", "^TestRestConc$", "./restc"]
+    return dict(name="restconc", cmd=cmd, timeout=dict(quick=1500, thorough=10000), cleanup=d)
+
+
+RESTMODEL = resttest("TestRestModel", "restmodel")
+REST = resttest("TestRest", "rest")
+RESTCONC = restconctest()
+M4_TRUST = ["M4 (lean/Ldlm/Model/Rest.lean) is a hand-written sequential model of net/rest/rest.go on top of M2; net/http cookie parsing, grpc-gateway routing and protojson decoding, uuid freshness of cookies (genCookie injective) are exercised or assumed, not modelled",
+            "tie: random histories on the real gateway + service object in virtual time (testing/synctest) against the compiled model through the line protocol; HTTP status, decoded answer, sessions ended by idle timers, hold listing, lock table, lease timers, gateway session table and idle-timer map (overlay accessor rest.VerifSessions) compared after every operation; ties between an idle timer and another timer on the same instant are detected by the model and the history is cut there"]
 STACK = stacktest()
 CONC = conctest()
 STACK_TRUST = ["stack stream: the real cmd/server and cmd/lock binaries built from the working tree, real gRPC/REST/Go clients over loopback; grpc-go, grpc-gateway, crypto/tls, net/rpc are exercised, not modelled"]
@@ -159,6 +177,30 @@ PROPS = {
         technique="Lean 4 proof (fold induction over an arbitrary state file; inductive invariants) + sequential differential correspondence with restarts + restart monitor",
         trusted=M2_TRUST,
     ),
+    "C15": dict(
+        modules=[P + "C15"],
+        theorems=[P + "C15." + t for t in ("same_request_same_step", "paired_runs_agree", "keys_cross_transports", "renew_cross_transports", "refused_request_invisible")]
+                 + ["Ldlm.Rest.sim_step", "Ldlm.Rest.paired_agree", "Ldlm.Core.advance_now"],
+        status={},
+        streams=[RESTMODEL, REST],
+        level_text="M4 puts the gateway's session table in front of M2: a REST request under a valid cookie and a gRPC request on a connection are both Core.step of the same service call under the lock-server session bound to the cookie / the connection; the error code in the answer comes from one regenerated table on both transports. Proved: at any state the two transports change the server identically and answer identically for the same session; for two fresh servers and EVERY well-formed request sequence (any number of sessions, any TryLock/Unlock/Renew parameters, any gaps) shorter than the REST session timeout, the run through the gateway and the run over gRPC end in equal lock-server states, give equal answers request by request, and no REST request is refused (forward simulation, induction over the sequence); on one server an Unlock/Renew has the same effect and answer through any REST session and any gRPC connection (keys cross transports); a refused REST request never reaches the server. Tied to the code by restmodel (M4 vs the real gateway and service object with both transports interleaved on one server, channel-by-channel after every operation) and by the model-independent paired run of two real servers (all proto3-JSON spellings, malformed bodies, bounded-exhaustive words).",
+        level_note="paired_runs_agree needs: requests only on open sessions (a closed connection cannot send) and total duration < RestSessionTimeout (no idle expiry on the REST side, which has no gRPC counterpart); idle expiry itself is C20. JSON decoding is library code (grpc-gateway, protojson): exercised by the paired stream, not modelled. Trusted: Lean kernel, hand-written M4/M2, uuid freshness of cookies, the differential ties.",
+        technique="Lean 4 proof (forward simulation between the REST run and the gRPC run of any request sequence; per-state transport equivalence) + differential correspondence of the gateway model + paired real-server differential",
+        trusted=M4_TRUST + M2_TRUST,
+    ),
+    "C20": dict(
+        modules=[P + "C20"],
+        theorems=[P + "C20." + t for t in ("bad_cookie_refused", "valid_cookie_accepted", "survives_short_gaps", "idle_session_gone", "expired_sessions_ended", "ends_exactly_once", "delete_ends",
+                                          "conc_reachable", "conc_ends_once", "conc_ended_when_quiet", "conc_no_late_service", "conc_no_crash", "conc_refused_after_end", "conc_deadlock_free")]
+                 + ["Ldlm.RestConc.step_inv", "Ldlm.RestConc.progress", "Ldlm.Rest.rstep_inv", "Ldlm.Rest.radv_prompt", "Ldlm.Rest.radv_keeps_later"]
+                 + ["Ldlm.Pins.pin_" + t for t in ("ValidateSession", "RestDestroySession", "RestCreateSession", "RestOnTimeout", "ServeHTTP", "TimerAdd", "TimerRemove", "TimerReset")],
+        status={},
+        streams=[RESTMODEL, REST, RESTCONC],
+        level_text="Sequential semantics (M4): a request with a missing/unknown/ended cookie answers 401 and changes nothing; a valid one is accepted and re-arms the deadline to now+timeout; a session whose deadline lies after the target survives any clock advance unchanged (so requests less than a timeout apart keep it valid for ever); after an advance no session with a deadline <= the clock is left; for EVERY history each cookie gets at most one connection-end, exactly one iff created and no longer valid, none while valid (inductive invariant, cookie freshness assumed injective). Races (M4c): one step per lock acquisition of rest.go/timermap.go (function bodies pinned to the source text by rfl), any number of sessions, requests, DELETEs, timer callbacks, any schedule: 10-clause invariant proved inductive; consequences: 0/1 connection-end per session, exactly 1 once quiet without entry, no request served after connection-end, ValidateSession never dereferences a missing entry, requests after the end are refused, and deadlock freedom (some thread can always step while any is unfinished or a lock is held). Tied to the code by restmodel (M4 vs real gateway, time steps to deadline-1ns/deadline/deadline+1ns), the sequential monitor stream (refusals have no effect, ConnEnd count) and controlled interleavings of request/DELETE/idle-callback on the instrumented gateway (no deadlock, no panic, exactly one ConnEnd, no hold left).",
+        level_note="M4c abstracts what a served request does to the lock server (C15/M4 cover that) and is tied to rest.go by source-text pins + the interleaving monitors, not by a step-by-step trace comparison; a change to the pinned functions breaks the pin and triggers the search streams. 'Release its holds once' = one DestroySession per session (proved here); what DestroySession releases is C06. Trusted: Lean kernel, hand-written M4/M4c, sync.Mutex/RWMutex and time.AfterFunc semantics (modelled), cookie freshness.",
+        technique="Lean 4 proof (inductive invariants over all histories and over all schedules of a lock-step concurrent model; progress theorem) + differential correspondence of the gateway model + controlled-interleaving exploration of the instrumented gateway",
+        trusted=M4_TRUST + CONC_TRUST,
+    ),
     "C07": dict(
         modules=[P + "C07"],
         theorems=[P + "C07." + t for t in ("failed_inert", "timerKey_injective", "unlock_frame_locks", "renew_frame", "waitTimeout_frame")]
@@ -262,6 +304,7 @@ ENGINES = [
     dict(name="codec", path="/verif/harness/codec", serves_properties=["C17"], kind_free_text="byte-level differential of store.Write/Read against the Lean codec model"),
     dict(name="stack", path="/verif/harness/stack", serves_properties=["C11", "C14", "C16", "C18"], kind_free_text="end-to-end: real cmd/server + cmd/lock binaries over loopback with gRPC, REST and Go clients, signals, TLS/password matrix"),
     dict(name="conc", path="/verif/harness/concsrv", serves_properties=["C01", "C02", "C03", "C05", "C06", "C09", "C13"], kind_free_text="controlled interleavings of small concurrent programs on the instrumented real LockServer (tools/instr overlay + verifrt scheduler + DFS/PCT explorer), with model-independent monitors and crash-image snapshots"),
+    dict(name="rest", path="/verif/harness/restc", serves_properties=["C15", "C20"], kind_free_text="REST gateway in process and in virtual time: model correspondence (TestRestModel vs Lean M4), paired real servers REST vs gRPC (TestRest C15), session life-cycle monitors (TestRest C20), controlled interleavings on the instrumented gateway (TestRestConc)"),
     dict(name="seq", path="/verif/harness/seq", serves_properties=["C01", "C03", "C04", "C07", "C08", "C10", "C12", "C13", "C18"], kind_free_text="sequential histories in virtual time: real LockServer (testing/synctest) vs Lean model M2 through the line protocol, plus model-independent monitors"),
 ]
 NOTES = "Every check = Lean proof obligations about a model + a correspondence run that ties the model to /repo's working tree. See DESIGN.md."
